@@ -249,7 +249,7 @@ def run(ctx):
     run_monitored(ctx, binary, scns, seq_monitor, tag="seq", nshards=16)
     # the same pairs on the plain build with fresh allocations left as the allocator hands them out: bytes that one
     # interface's response left in a recycled block must not show up in the other interface's frames
-    run_monitored(ctx, plain, scns, seq_monitor, tag="seq-plain", nshards=16, env_extra={"VH_FILL": "-1"})
+    run_monitored(ctx, plain, scns, seq_monitor, tag="seq-plain", nshards=16, env_extra={"VH_FILL": "-1", "VH_FAR_CTX": "1"})
     rep.need("interleavings_checked", rep.counters.get("interleavings_checked", 0), ctx.n(3400, 116000))
     rep.need("interleavings_of_two_interfaces_with_one_address", rep.counters.get("interleavings_of_two_interfaces_with_one_address", 0), 100)
     run_threads(ctx, ctx.n(8, 64), ctx.n(300, 5000))
